@@ -1,4 +1,5 @@
 import Carquet.Impl.Delta
+import Carquet.Gen.DeltaConstants
 /-
 Model of src/encoding/delta_strings.c (DELTA_BYTE_ARRAY, incremental encoding).  Fidelity: exact
 for the checks, their order, the statuses and the bytes; `malloc` failures and output buffer
@@ -46,13 +47,92 @@ def decode (data : List UInt8) (n : Int) (workSize : Nat) : Except Status (List 
           | .error s => .error s
           | .ok vs => .ok (vs, c1 + c2 + (suffixes.map (fun l => l.toNat)).sum)
 
+/-- one iteration of the "Reconstruct strings" loop as the memory accesses it makes:
+`memcpy(work + workOff, prev_string, pre)`, `memcpy(work + workOff + pre, data + sufOff, suf)`,
+`values[i] = { work + workOff, pre + suf }` -/
+structure Access where
+  workOff : Nat
+  pre : Nat
+  sufOff : Nat
+  suf : Nat
+deriving Repr, DecidableEq
+
+/-- the "Reconstruct strings" loop with its accesses as data (for C08).  `sufOff` is
+`pos + suffix_offset` (an offset into `data`), `prevLen = none` is `prev_string == NULL`,
+otherwise the `uint32_t prev_len`. -/
+def reconstructAcc (workSize : Nat) : List Nat → List Nat → Nat → Nat → Option Nat → Except Status (List Access)
+  | p :: ps, s :: ss, sufOff, workOffset, prevLen =>
+    if workSize < workOffset + (p + s) % 4294967296 then .error .outOfMemory
+    else if 0 < p ∧ (prevLen = none ∨ asInt32 (prevLen.getD 0) < (p : Int)) then .error .decode
+    else
+      match reconstructAcc workSize ps ss (sufOff + s) (workOffset + (p + s) % 4294967296)
+              (some ((p + s) % 4294967296)) with
+      | .error e => .error e
+      | .ok as => .ok (⟨workOffset, p, sufOff, s⟩ :: as)
+  | _, _, _, _, _ => .ok []
+
+/-- `carquet_delta_strings_decode` with its accesses as data: same checks, order and statuses as
+`decode`; result: the accesses and `bytes_consumed` -/
+def decodeAcc (data : List UInt8) (n : Int) (workSize : Nat) : Except Status (List Access × Nat) :=
+  if n ≤ 0 then .error .invalidArgument
+  else match decodeInt32 data n.toNat with
+    | .error s => .error s
+    | .ok (prefixes, c1) =>
+      match decodeInt32 (data.drop c1) n.toNat with
+      | .error s => .error s
+      | .ok (suffixes, c2) =>
+        if (List.zip suffixes prefixes).any (fun sp => sp.1.toInt < 0 ∨ sp.2.toInt < 0) then .error .decode
+        else if data.length < c1 + c2 + (suffixes.map (fun l => l.toNat)).sum then .error .decode
+        else match reconstructAcc workSize (prefixes.map (fun l => l.toNat)) (suffixes.map (fun l => l.toNat))
+                     (c1 + c2) 0 none with
+          | .error s => .error s
+          | .ok as => .ok (as, c1 + c2 + (suffixes.map (fun l => l.toNat)).sum)
+
+/-- the values the accesses build: value i = first `pre` bytes of value i-1, then `suf` input bytes -/
+def buildValues (data : List UInt8) : List UInt8 → List Access → List (List UInt8)
+  | _, [] => []
+  | prev, a :: as =>
+    (prev.take a.pre ++ (data.drop a.sufOff).take a.suf) ::
+      buildValues data (prev.take a.pre ++ (data.drop a.sufOff).take a.suf) as
+
+/-- what the loop guarantees about its accesses, from `sufOff` (offset of the next suffix byte in
+the input), `workOffset` and the length `prevLen` of the previous value (0 before the first):
+destinations are consecutive, every value lies inside the work buffer, the prefix copy stays inside
+the previous value, suffix reads are consecutive -/
+def accsSafe (workSize : Nat) : Nat → Nat → Nat → List Access → Prop
+  | _, _, _, [] => True
+  | so, wo, pl, a :: as =>
+    a.workOff = wo ∧ a.sufOff = so ∧ a.pre ≤ pl ∧ wo + a.pre + a.suf ≤ workSize ∧
+    accsSafe workSize (so + a.suf) (wo + a.pre + a.suf) (a.pre + a.suf) as
+
 /-- `prefix_lengths[i]` (0 for the first value) -/
 def prefixLengths : Option (List UInt8) → List (List UInt8) → List Nat
   | _, [] => []
   | none, v :: vs => 0 :: prefixLengths (some v) vs
   | some prev, v :: vs => commonPrefixLength prev v :: prefixLengths (some v) vs
 
-def deltaCapacity (n : Nat) : Nat := n * 10 + 100
+/-- `delta_capacity`: re-extracted from delta_strings.c on every run (`Gen.deltaStringsScratch`);
+repaired code (F61): `40 + (n + 127) / 128 * (10 + 4 + 128 * 8)`, see `DeltaLength.lengthsCapacity` -/
+def deltaCapacity (n : Nat) : Nat := Carquet.Gen.deltaStringsScratch n
+
+/-- `delta_capacity` before F61 -/
+def deltaCapacityPreFix (n : Nat) : Nat := n * 10 + 100
+
+/-- the two length streams `carquet_delta_strings_encode` writes first, as a function of the prefix
+and suffix lengths alone (`pre = true`: scratch capacity before F61) -/
+def encodeLensWith (pre : Bool) (prefixes suffixes : List Nat) : Except Status (List UInt8) :=
+  if prefixes = [] then .error .invalidArgument
+  else
+    match encodeInt32 (prefixes.map (BitVec.ofNat 32))
+            (if pre then deltaCapacityPreFix prefixes.length else deltaCapacity prefixes.length) with
+    | .error s => .error s
+    | .ok p =>
+      match encodeInt32 (suffixes.map (BitVec.ofNat 32))
+              (if pre then deltaCapacityPreFix prefixes.length else deltaCapacity prefixes.length) with
+      | .error s => .error s
+      | .ok q => .ok (p ++ q)
+
+def encodeLens (prefixes suffixes : List Nat) : Except Status (List UInt8) := encodeLensWith false prefixes suffixes
 
 /-- `carquet_delta_strings_encode(values, num_values, output)`: the bytes appended to `output`
 when the call succeeds -/
@@ -64,6 +144,19 @@ def encode (values : List (List UInt8)) : Except Status (List UInt8) :=
     | .ok pre =>
       match encodeInt32 ((List.zipWith (fun p v => BitVec.ofNat 32 (v.length - p)) (prefixLengths none values) values))
               (deltaCapacity values.length) with
+      | .error s => .error s
+      | .ok suf =>
+        .ok (pre ++ suf ++ (List.zipWith (fun p (v : List UInt8) => v.drop p) (prefixLengths none values) values).flatten)
+
+/-- the encoder before F61 (scratch buffer of `10·n + 100` bytes for each length stream) -/
+def encodePreFix (values : List (List UInt8)) : Except Status (List UInt8) :=
+  if values = [] then .error .invalidArgument
+  else
+    match encodeInt32 ((prefixLengths none values).map (BitVec.ofNat 32)) (deltaCapacityPreFix values.length) with
+    | .error s => .error s
+    | .ok pre =>
+      match encodeInt32 ((List.zipWith (fun p v => BitVec.ofNat 32 (v.length - p)) (prefixLengths none values) values))
+              (deltaCapacityPreFix values.length) with
       | .error s => .error s
       | .ok suf =>
         .ok (pre ++ suf ++ (List.zipWith (fun p (v : List UInt8) => v.drop p) (prefixLengths none values) values).flatten)
